@@ -7,6 +7,7 @@ Model: Model/Proc/Projection.lean. Every theorem is quantified over the hash fun
 over every sequence of Project / ProjectValues calls (`Reachable`, `Later`).
 -/
 import Proofs.Lemmas.C08Inv
+import Proofs.Lemmas.C08Excl
 
 namespace C08
 open Proc.Sort Proc.Projection Proc.Extract
@@ -280,5 +281,34 @@ theorem nonsingular_order (p : Proj) (keys : List Nat) : (p.nonSingular keys).Su
   | [] => simp
   | [k] => simp
   | k0 :: k1 :: rest => exact List.filter_sublist
+
+/-! ### Exclusion does not depend on the order of the Parse calls -/
+
+/-- `fullExcluded` is invariant under permutation of the exclusion list. -/
+theorem fullExcluded_perm_invariant (ex ex' : List Bytes) (hp : ex.Perm ex') (name : Bytes) :
+    fullNameExcluding ex name = fullNameExcluding ex' name :=
+  fullNameExcluding_perm ex ex' hp name
+
+/-- **exclusion_order_independent_partial**: projecting a result gives the same projection state
+(group fields, rows, nodes, order maps) and the same key under any two parser states that have
+the same SET of specific config keys and the same MULTISET of specific name keys — which is how
+the parser states reached by two different orders of the same `Parse` calls are related (the
+closures read the parser state at projection time, after all parsing). For every hash function.
+Not proved in Lean (the gap): that `Parse` accumulates `configKeys` as a set-insert and
+`fullnameKeys` as an append, so that permuting the calls permutes/preserves them in this sense;
+this is two lines of `makeProjection` and is exercised by the correspondence run and the
+specification oracle on all permutations of up to 4 expressions per case. -/
+theorem exclusion_order_independent_partial (h : List Bytes → UInt64) (e e' : Env) (he : EnvEq e e')
+    (p : Proj) (r : Res) :
+    p.project h e r = p.project h e' r ∧ p.projectValues h e r = p.projectValues h e' r := by
+  unfold Proj.project Proj.projectValues
+  rw [populateRow_congr e e' he p r]
+  exact ⟨rfl, rfl⟩
+
+example : EnvEq { configKeys := [[97], [98]], exclude := [[47, 120], [47, 121]] }
+    { configKeys := [[98], [97], [98]], exclude := [[47, 121], [47, 120]] } := by
+  refine ⟨fun k => ?_, List.Perm.swap _ _ _⟩
+  simp only [List.contains_iff_mem, List.mem_cons, List.not_mem_nil, or_false]
+  by_cases h1 : k = [97] <;> by_cases h2 : k = [98] <;> simp [h1, h2]
 
 end C08
